@@ -182,6 +182,55 @@ func TestVerifC14Handler(t *testing.T) {
 		in.close()
 	}
 
+	// ---- WritePayload FAILS (its write transaction is rolled back: another persistent subscriber cannot save its job) while the
+	//      payload message of an admitted private transaction is handled: the private job must stay (the payload is not stored,
+	//      the payload event does not exist), survive a restart, and be removed only by the message whose payload IS stored
+	{
+		wpath := filepath.Join(dir, "wpfail.db")
+		var wcalls []string
+		w := c14Open(t, wpath, &wcalls, &mu)
+		other, oerr := bbolt.CreateBBoltStore(filepath.Join(dir, "wpfail-other.db"), stoabs.WithNoSync())
+		if oerr != nil {
+			t.Fatal(oerr)
+		}
+		present := func(n *c14Node) string {
+			ok, _ := n.state.IsPayloadPresent(ctx, priv.PayloadHash())
+			return fmt.Sprint(ok)
+		}
+		wsnap := func(n *c14Node, what string, err error) {
+			time.Sleep(2 * time.Millisecond)
+			mu.Lock()
+			e := "nil"
+			if err != nil {
+				e = "error"
+			}
+			lines = append(lines, fmt.Sprintf("wpfail-%s err=%s vcsCalls=%d privateJobs=%s payloadStored=%s", what, e, len(wcalls), n.jobs("private"), present(n)))
+			mu.Unlock()
+		}
+		_ = w.state.Add(ctx, root, []byte{0, 0, 0, 1})
+		wsnap(w, "add-private", w.state.Add(ctx, priv, nil))
+		// a persistent subscriber on ANOTHER store: its Save refuses the write transaction of the dag store, so saveEvent - and with
+		// it the whole WritePayload transaction - fails (payload events only: Add of the private transaction itself was fine)
+		if _, err := w.state.Notifier("c14_other_store", func(dag.Event) (bool, error) { return true, nil }, dag.WithPersistency(other),
+			dag.WithSelectionFilter(func(event dag.Event) bool { return event.Type == dag.PayloadEventType })); err != nil {
+			t.Fatal(err)
+		}
+		wsnap(w, "payload-write-fails", w.p.handleTransactionPayload(ctx, conn, msg(priv, payload)))
+		w.close()
+		_ = other.Close(ctx)
+		// restart without the broken subscriber: Run replays the private job (the resolver answers with a database error: retried)
+		w = c14Open(t, wpath, &wcalls, &mu)
+		var werr error
+		for _, x := range w.state.Notifiers() {
+			if err := x.Run(); err != nil {
+				werr = err
+			}
+		}
+		wsnap(w, "restart", werr)
+		wsnap(w, "payload-written", w.p.handleTransactionPayload(ctx, conn, msg(priv, payload)))
+		w.close()
+	}
+
 	// ---- how the REAL handlePrivateTxRetry (the "private" receiver registered by the real Configure) classifies:
 	//      database error -> retried; other error -> fatal (marked failed, shown by the protocol's diagnostics);
 	//      PAL not decryptable with our keys -> done; payload already there -> done
